@@ -134,6 +134,15 @@ pub fn run(n: usize, rng: &mut Rng, rep: &mut Report) {
             6 => format!("<{}>", raw),
             _ => format!("[![i]({})]({})", raw, raw),
         };
+        // a harmless twin of the SAME shape and byte length in an earlier block (paragraph, list item or quote): whatever is
+        // remembered about the first destination - by position, length, hash or label - must not vouch for the second
+        let twinned = rng.chance(1, 3);
+        let d = if !twinned { d } else {
+            let pad = |n: usize| -> String { let base = "http://example.com/"; if n >= base.len() { format!("{}{}", base, "x".repeat(n - base.len())) } else { format!("/{}", "y".repeat(n.saturating_sub(1))) } };
+            let twin = d.replace(&raw, &pad(raw.len())).replace("[a]", "[b]");
+            match rng.below(4) { 0 => format!("{}\n\n{}", twin, d), 1 => format!("- {}\n\n{}", twin.replace('\n', "\n  "), d), 2 => format!("> {}\n\n{}", twin.replace('\n', "\n> "), d), _ => format!("{}\n\n{}\n\n{}", twin, d, twin) }
+        };
+        if twinned { rep.stats.count("with_harmless_twin"); }
         let input = format!("src={}", hexs(&d));
         let (tree, html) = match crate::util::guarded(|| { let t = md.parse(&d); let h = t.render(); (t, h) }) { Ok(v) => v, Err(_) => { rep.stats.count("skipped_panic_C01"); continue; } };
         rep.stats.case(&input, raw.contains('&') || raw.contains('\\') || raw.contains('%'));
@@ -146,7 +155,7 @@ pub fn run(n: usize, rng: &mut Rng, rep: &mut Report) {
         for u in html_urls(&html) {
             if dangerous(&u) { rep.violation("dangerous-url-html", input.clone(), format!("rendered destination {:?} in {:?}", u, html)); }
         }
-        if plainly_dangerous && pos != 7 && (html.contains("<a ") || html.contains("<img ")) {
+        if plainly_dangerous && !twinned && pos != 7 && (html.contains("<a ") || html.contains("<img ")) {
             rep.violation("rejected-not-literal", input.clone(), format!("rejected destination still produced a link/image: {:?}", html));
         }
     }
